@@ -184,6 +184,32 @@ pub fn run_c19(ctx: &Ctx) -> i32 {
         states += seen.len() as u64;
         acc.sample(|| json!({"start": format!("{start:?}"), "example_history": frontier.first()}));
     }
+    // every sequence up to a smaller depth WITHOUT state merging: a defect that corrupts state the
+    // canonical form does not contain (it is derived from the reference model) cannot hide behind it
+    let full_depth = if ctx.tier == Tier::Quick { 4 } else { 5 };
+    let mut full = 0u64;
+    for start in [MStart::Default, MStart::Cap200] {
+        let n = ops.len() as u64;
+        for len in 1..=full_depth {
+            for code in 0..n.pow(len as u32) {
+                let mut x = code;
+                let h: Vec<MOp> = (0..len)
+                    .map(|_| {
+                        let o = ops[(x % n) as usize];
+                        x /= n;
+                        o
+                    })
+                    .collect();
+                full += 1;
+                acc.evaluations += 1;
+                if let Err((sig, what)) = m_build(start, &h, &M_IDS) {
+                    acc.violation(viol("C19", &sig, format!("{what} (start {start:?}, history {h:?})"), json!({"kind": "c19", "start": start, "history": h}), (1, full, 0)));
+                }
+            }
+        }
+    }
+    acc.add("sequences_enumerated_without_state_merging", full);
+    transitions += full;
     acc.add("states", states);
     acc.add("transitions", transitions);
     acc.max("max:depth_with_new_states", max_depth as u64);
@@ -523,8 +549,47 @@ pub fn run_c18(ctx: &Ctx) -> i32 {
             .collect();
         hs.into_iter().map(|h| h.join().unwrap()).collect()
     });
+    // every sequence up to a smaller depth WITHOUT state merging (see C19), from prefill 0 and 127
+    let full_depth = if q { 4 } else { 5 };
+    let full_results: Vec<Acc> = std::thread::scope(|sc| {
+        let mut hs = vec![];
+        for pf in [0usize, 127] {
+            for (fi, first) in ops.iter().enumerate() {
+                let ops = ops.clone();
+                let first = *first;
+                hs.push(sc.spawn(move || {
+                    let mut acc = Acc::default();
+                    let n = ops.len() as u64;
+                    for len in 0..full_depth {
+                        for code in 0..n.pow(len as u32) {
+                            let mut x = code;
+                            let mut h = vec![first];
+                            for _ in 0..len {
+                                h.push(ops[(x % n) as usize]);
+                                x /= n;
+                            }
+                            acc.evaluations += 1;
+                            if let Err((sig, what)) = p_build(pf, &h) {
+                                acc.violation(viol("C18", &sig, format!("{what} (prefill {pf}, history {h:?})"), json!({"kind": "c18", "prefill": pf, "history": h}), (100 + pf, fi as u64 * 1_000_000 + code, len as u32)));
+                            }
+                        }
+                    }
+                    acc.add("sequences_enumerated_without_state_merging", acc.evaluations);
+                    acc
+                }));
+            }
+        }
+        hs.into_iter().map(|h| h.join().unwrap()).collect()
+    });
+    let mut full_acc = Acc::default();
+    for a in full_results {
+        full_acc.merge(a);
+    }
+    let full_n = full_acc.evaluations;
+    full_acc.finalize();
+    rep.push("Pool histories without state merging (prefill 0 and 127)", full_acc, true, full_n);
     let mut states = 0;
-    let mut transitions = 0;
+    let mut transitions = full_n;
     for (i, (mut acc, s, t)) in results.into_iter().enumerate() {
         states += s;
         transitions += t;
@@ -822,6 +887,82 @@ pub fn check_c20(case: &Case, depth: usize, order: (usize, u64, u32), acc: &mut 
     acc.sample(|| json!({"universe": case.u.describe(&case.p), "alphabet": format!("{ops:?}"), "depth": depth}));
 }
 
+/// The sorted candidates of a union requirement must come out in the listed member order whatever
+/// order the provider's answers complete in (every completion order, controlled executor).
+pub fn check_c20_async_union(case: &Case, order: (usize, u64, u32), acc: &mut Acc) {
+    use crate::sched::{explore, Controller, CtlRuntime, Policy};
+    use resolvo::runtime::AsyncRuntime;
+    let sem = Sem::new(&case.u, &case.p);
+    for un in 0..case.u.unions.len() as Id {
+        let req = Req::Union(un);
+        let want = sem.req_sorted(req);
+        let st = explore(None, 3000, |prefix| {
+            let ctl = Controller::new(prefix.to_vec(), Policy::Fifo, false);
+            let mut prov = Prov::new(&case.u);
+            prov.logging = false;
+            prov.ctl = Some(ctl.clone());
+            prov.mask = K_CANDS | K_FILTER | K_SORT;
+            let cache = SolverCache::new(prov);
+            let rt = CtlRuntime(ctl.clone());
+            let got: Vec<u32> = match rt.block_on(cache.get_or_cache_sorted_candidates(to_req(req))) {
+                Ok(c) => c.iter().map(|s| s.0).collect(),
+                Err(_) => vec![u32::MAX],
+            };
+            acc.evaluations += 1;
+            if got != want {
+                acc.violation(viol(
+                    "C20",
+                    "sorted:completion-order",
+                    format!("sorted candidates of union {un} = {got:?} under completion order {prefix:?}, expected {want:?}"),
+                    json!({"kind": "c20-async", "case": case, "union": un, "schedule": prefix, "universe": case.u.describe(&case.p)}),
+                    order,
+                ));
+            }
+            let t = ctl.trace.borrow().clone();
+            Ok(t)
+        });
+        if let Ok(st) = st {
+            acc.add("union_queries_schedules", st.runs);
+        }
+    }
+}
+
+/// One package with many candidates: favored rotation and order stability beyond small sizes.
+pub fn check_c20_wide(acc: &mut Acc) {
+    for n in [5usize, 21, 33, 64] {
+        for perm in 0..3 {
+            for fav_pos in [0usize, 1, 2, n / 2, n - 2, n - 1] {
+                let mut u = Universe::default();
+                let a = u.add_name("a");
+                let sv: Vec<Id> = (1..=n as u32).map(|v| u.add_solv(a, v)).collect();
+                let mut order: Vec<Id> = sv.clone();
+                match perm {
+                    0 => {}
+                    1 => order.reverse(),
+                    _ => {
+                        // a fixed scramble
+                        // multiplier 11 is coprime to 5, 21, 33 and 64: a permutation
+                        order = (0..n).map(|i| sv[(i * 11 + 3) % n]).collect::<Vec<_>>();
+                    }
+                }
+                u.set_order(&order);
+                u.names[a as usize].favored = Some(order[fav_pos]);
+                let all = u.add_vset(a, &sv);
+                let most: Vec<Id> = sv.iter().copied().filter(|s| s % 5 != 0).collect();
+                let vs_most = u.add_vset(a, &most);
+                let case = Case { u, p: Problem { reqs: vec![Req::Single(all)], cons: vec![], soft: vec![] }, tag: format!("wide n={n}") };
+                for hist in [vec![COp::Sorted(Req::Single(all))], vec![COp::Matching(vs_most), COp::Sorted(Req::Single(vs_most)), COp::Sorted(Req::Single(all))]] {
+                    acc.evaluations += 1;
+                    acc.count("wide_package_queries");
+                    if let Err((sig, what)) = c20_build(&case, &hist) {
+                        acc.violation(viol("C20", &format!("{sig}:wide"), format!("{what} (one package with {n} candidates, favored at sorted position {fav_pos})"), json!({"kind": "c20", "case": case, "history": hist}), (50, n as u64, fav_pos as u32)));
+                    }
+                }
+            }
+        }
+    }
+}
+
 pub fn run_c20(ctx: &Ctx) -> i32 {
     let q = ctx.tier == Tier::Quick;
     let depth = if q { 3 } else { 4 };
@@ -867,11 +1008,21 @@ pub fn run_c20(ctx: &Ctx) -> i32 {
                 acc.count("cases");
                 check_c20(&hinted, depth, (fi, idx, 1), acc);
             }
+            if !case.u.unions.is_empty() {
+                check_c20_async_union(case, (fi, idx, 2), acc);
+            }
         });
         states += acc.get("cases");
         transitions += acc.get("call_sequences");
         eprintln!("[C20] {}: {} universes, {} call sequences, {:.1}s", fam.name(), acc.get("cases"), acc.get("call_sequences"), ctx.t0.elapsed().as_secs_f64());
         rep.push(&format!("{}{}", fam.name(), if *stride > 1 { format!(" (every {stride}th index)") } else { String::new() }), acc, *stride == 1, fam.len());
+    }
+    {
+        let mut acc = Acc::default();
+        check_c20_wide(&mut acc);
+        acc.finalize();
+        transitions += acc.evaluations;
+        rep.push("one package with 5/21/33/64 candidates x favored position x 3 preference orders", acc, true, 0);
     }
     rep.extra.insert("states".into(), json!(states));
     rep.extra.insert("transitions".into(), json!(transitions));
@@ -883,6 +1034,11 @@ pub fn run_c20(ctx: &Ctx) -> i32 {
 
 pub fn replay_c20(v: &serde_json::Value) -> Vec<String> {
     let case: Case = serde_json::from_value(v["case"].clone()).expect("case");
+    if v["kind"] == "c20-async" {
+        let mut acc = Acc::default();
+        check_c20_async_union(&case, (0, 0, 0), &mut acc);
+        return acc.violations.iter().map(|v| v.signature.clone()).collect();
+    }
     if v["kind"] == "c20" {
         let hist: Vec<COp> = serde_json::from_value(v["history"].clone()).expect("history");
         match c20_build(&case, &hist) {
